@@ -685,6 +685,9 @@ def base_first_records():
         single("int", "lit", inherit="plain_sub_redefault", base_first=True),
         single("nums", "mut", inherit="spec_sub_redefault", base_first=True),
         single("leaf", "mut", inherit="plain_sub_redefault", base_first=True),
+        # the owner declares NO default; the plain subclass gives the attribute its first one
+        single("nums", "none", inherit="plain_sub_redefault", base_first=True),
+        single("leaf", "none", inherit="plain_sub_redefault", base_first=True),
     ]
 
 
